@@ -5,6 +5,8 @@ Impl:  the real rimu-py code, in-process (PYTHONPATH must point at <repo>/src).
 """
 import os
 import re
+import select
+import signal
 import subprocess
 import sys
 
@@ -62,14 +64,23 @@ class ModelError(Exception):
 class Model:
     """The Lean model driver."""
 
+    budget = 20.0
+
     def __init__(self, exe=EXE, fuel=None):
         if not os.path.exists(exe):
             raise ModelError('model driver not built: ' + exe)
-        # the model recurses once per loop iteration: give it a deep stack
-        self.p = subprocess.Popen(['bash', '-c', 'ulimit -s unlimited 2>/dev/null || ulimit -s 1000000 2>/dev/null; exec "$0"', exe],
-                                  stdin=subprocess.PIPE, stdout=subprocess.PIPE, text=True, encoding='ascii', bufsize=1)
+        self.exe = exe
+        self.fuel = fuel
+        self.timeouts = 0
         self.sent = set()
         self.unsupported = 0
+        self._start()
+
+    def _start(self):
+        exe, fuel = self.exe, self.fuel
+        # the model recurses once per loop iteration: give it a deep stack
+        self.p = subprocess.Popen(['bash', '-c', 'ulimit -s unlimited 2>/dev/null || ulimit -s 1000000 2>/dev/null; ulimit -v 6000000 2>/dev/null; exec "$0"', exe],
+                                  stdin=subprocess.PIPE, stdout=subprocess.PIPE, text=True, encoding='ascii', bufsize=1)
         if fuel:
             self.call(['fuel', str(fuel)])
 
@@ -84,16 +95,31 @@ class Model:
         line = '\t'.join(esc(f) for f in fields)
         self.p.stdin.write(line + '\n')
         self.p.stdin.flush()
+        ready, _, _ = select.select([self.p.stdout], [], [], self.budget)
+        if not ready:
+            # the model is still computing: count it as exhausted fuel and restart the driver
+            # (its session is lost; callers reset both sides after a non-ok outcome)
+            self.timeouts += 1
+            self.p.kill()
+            self.p.wait()
+            self._start()
+            return ['fuel']
         reply = self.p.stdout.readline()
         if not reply:
+            code = self.p.wait()
+            self._start()
+            if code is not None and code < 0:
+                # killed by a signal (stack or memory exhausted): same meaning as fuel
+                self.timeouts += 1
+                return ['fuel']
             raise ModelError('model driver died on: ' + line[:200])
         return [unesc(f) for f in reply.rstrip('\n').split('\t')]
 
     def supply(self, pattern, flags):
         """Answer a `need` request: compile the pattern with CPython and send the tree."""
         try:
-            tree, ngroups = rx.translate(pattern, flags, CACHE)
-            self.call(['compile', pattern, str(flags), 'ok', str(ngroups), rx.to_wire(tree)])
+            tree, ngroups, eff = rx.translate(pattern, flags, CACHE)
+            self.call(['compile', pattern, str(flags), 'ok', str(ngroups), rx.to_wire(tree), str(eff)])
         except rx.Unsupported:
             self.call(['compile', pattern, str(flags), 'unsupported', '0', ''])
         except (re.error, OverflowError, RecursionError):
@@ -140,10 +166,42 @@ EXC_KIND = {'IndexError': 'IndexError', 'AttributeError': 'NoneType', 'TypeError
             'RecursionError': 'fuel'}
 
 
+class BudgetExceeded(BaseException):
+    pass
+
+
+class time_limit:
+    """Wall-clock budget for a call into the implementation (SIGALRM based)."""
+
+    def __init__(self, seconds):
+        self.seconds = seconds
+
+    def _raise(self, *_):
+        raise BudgetExceeded()
+
+    def __enter__(self):
+        if self.seconds:
+            self.old = signal.signal(signal.SIGALRM, self._raise)
+            signal.setitimer(signal.ITIMER_REAL, self.seconds)
+
+    def __exit__(self, *exc):
+        if self.seconds:
+            signal.setitimer(signal.ITIMER_REAL, 0)
+            signal.signal(signal.SIGALRM, self.old)
+        return False
+
+
 class Impl:
     """The real implementation, in-process."""
 
-    def __init__(self):
+    budget = 5.0
+
+    def __init__(self, mem_limit=6 << 30):
+        if mem_limit:
+            import resource
+            soft, hard = resource.getrlimit(resource.RLIMIT_AS)
+            if soft == resource.RLIM_INFINITY or soft > mem_limit:
+                resource.setrlimit(resource.RLIMIT_AS, (mem_limit, hard))
         import rimu
         from rimu import (blockattributes, delimitedblocks, document, lists, macros, options, quotes,
                           replacements, spans)
@@ -177,8 +235,9 @@ class Impl:
         cb = (lambda msg: msgs.append(msg.text)) if callback else None
         opts = self.rimu.RenderOptions(safeMode=safeMode, htmlReplacement=htmlReplacement, reset=reset, callback=cb)
         try:
-            html = self.rimu.render(src, opts)
-        except RecursionError:
+            with time_limit(self.budget):
+                html = self.rimu.render(src, opts)
+        except (RecursionError, BudgetExceeded, MemoryError):
             return ('fuel',)
         except Exception as e:  # noqa
             return ('exc', EXC_KIND.get(type(e).__name__, type(e).__name__))
